@@ -78,6 +78,9 @@ func c20Locations() map[string]string {
 		"unicode":        "http://crl.test/ünï/名前.crl",
 		"upper-scheme":   "HTTP://crl.test/plain.crl",
 		"upper-host":     "http://CRL.TEST/plain.crl",
+		"upper-path":     "http://crl.test/PLAIN.crl",
+		"query-only":     "http://crl.test/plain.crl?issuer=2",
+		"query-other":    "http://crl.test/plain.crl?issuer=3",
 		"query":          "http://crl.test/plain.crl?x=../../y",
 		"port":           "http://crl.test:8080/plain.crl",
 		"userinfo":       "http://u:p@crl.test/plain.crl",
@@ -108,7 +111,7 @@ func c20LocationPart(chk *fw.Check, tier string) (evals int, ids map[string]stri
 	}
 	pairNames := names
 	if tier != "thorough" {
-		pairNames = []string{"plain", "dotdot", "slash-encoded", "unicode", "upper-host", "query"}
+		pairNames = []string{"plain", "dotdot", "slash-encoded", "unicode", "upper-path", "query-only"}
 	}
 	for _, a := range pairNames {
 		for _, b := range pairNames {
@@ -332,19 +335,71 @@ func c20Foreign(chk *fw.Check) int {
 	return n
 }
 
+// c20Histories: load / refresh histories with accepted and rejected documents (the C11 event alphabet); after every
+// completed event no temporary artefact may remain in the work_dir and a location the reference holds as loaded
+// (disk) must still have its store directory.
+func c20Histories(chk *fw.Check, tier string) fw.HStats {
+	c := newC11Cast()
+	depth := 3
+	if tier == "thorough" {
+		depth = 4
+	}
+	total := fw.HStats{}
+	for _, cfg := range []c11Cfg{{false, true}, {true, true}, {false, false}} {
+		cfg := cfg
+		st := fw.BFS(len(c11Events), depth, 0, time.Now().Add(20*time.Minute), func(hist []int) (string, bool) {
+			var residue []string
+			c11AfterEvent = func(dir, event string) {
+				_, tmps, other := ListDir(dir)
+				if len(tmps) > 0 || len(other) > 0 {
+					residue = append(residue, fmt.Sprintf("after %s: %v %v", event, tmps, other))
+				}
+			}
+			r := c.run(cfg, hist)
+			c11AfterEvent = nil
+			if r.key == "" && len(residue) == 0 {
+				return "", false
+			}
+			if len(residue) > 0 {
+				names := make([]string, len(hist))
+				for k, e := range hist {
+					names[k] = c11Events[e]
+				}
+				last := names[len(names)-1]
+				prev := ""
+				for _, n := range names {
+					if strings.HasPrefix(n, "set(") {
+						prev = n
+					}
+				}
+				chk.Violation("C20|temp-residue-after-event|"+last+"|served="+prev+"|"+cfg.String(),
+					fmt.Sprintf("[%s] temporary or stray artefacts remain in the work_dir: %v; history %v", cfg, residue, names), map[string]interface{}{"driver": "C20", "history": hist, "events": names})
+				return "residue" + fmt.Sprint(hist), false
+			}
+			return r.key, true
+		})
+		total.States += st.States
+		total.Transitions += st.Transitions
+	}
+	return total
+}
+
 // RunC20 is the entry point of the C20 check.
 func RunC20(tier string, args []string) int {
 	chk := fw.NewCheck("C20", tier, "exploration")
 	chk.Assumptions = []string{
 		"sandbox = parent directory holding the work_dir, a sibling directory and canary files; the tree outside the work_dir is snapshotted (names, sizes, digests) before and after every case; every path passed to the os shim is logged",
-		"location alphabet: 17 hostile URL shapes alone and as ordered CDP pairs, both backends; life cycle: k = 1..5 Provision/Cleanup cycles x backend x with/without configured CRLs under the virtual clock; startup sweep with 8 foreign names around the temp pattern",
+		"location alphabet: 20 hostile URL shapes alone and as ordered CDP pairs, both backends; life cycle: k = 1..5 Provision/Cleanup cycles x backend x with/without configured CRLs under the virtual clock; startup sweep with 8 foreign names around the temp pattern",
 		"foreign entries that DO match crl_*_tmp are not judged",
 	}
 	evals, ids := c20LocationPart(chk, tier)
 	cycles := c20Lifecycle(chk)
 	foreign := c20Foreign(chk)
+	hst := c20Histories(chk, tier)
 	cov := fw.Coverage{
-		"evaluations":         evals + cycles + foreign,
+		"history_states":      hst.States,
+		"history_transitions": hst.Transitions,
+		"evaluations":         evals + cycles + foreign + hst.Transitions,
 		"distinct_nontrivial": len(ids) + cycles + foreign,
 		"rule":                "location cases (string or ordered pair, x backend) + life-cycle configurations + startup-sweep cases; distinct = distinct store identifiers observed for the location cases (each location case is non-trivial: a CRL is fetched, stored, refreshed and looked up)",
 		"location_cases":      evals,
